@@ -322,12 +322,39 @@ def run(ctx):
                           and a[1][1] == ("func", "carquet_xxhash64"))
             ctx.ob("R11.symmetry", "typed-flow|%s:%s" % (BF, f.name), P.where(f.body),
                    "%s passes (filter, xxhash64(...)) to %s" % (f.name, callee), okflow)
+        # every value handed to insert_<ty> is inserted: no path leaves without the insert_hash call
+        from ..rules.flow import reaches_exit_avoiding, describe_path
+        pth = reaches_exit_avoiding(fi.cfg, lambda e: e.k == "CallExpr" and e.callee == "carquet_bloom_filter_insert_hash")
+        ctx.ob("R6.must-pass", "typed-insert-total|%s:%s" % (BF, fi.name), P.where(fi.body),
+               "%s inserts every value it is given (no exit without insert_hash); check_%s hashes every probe"
+               % (fi.name, ty), pth is None, "path: %s" % describe_path(fi, fi.cfg, pth) if pth else "")
         for r in fc.returns():
             e = r.c[0].strip() if r.c and r.c[0] is not None else None
             ctx.ob("R11.symmetry", "typed-return|%s:%s" % (BF, fc.name), P.where(r),
                    "typed check returns check_hash's answer unmodified",
                    e is not None and e.k == "CallExpr" and e.callee == "carquet_bloom_filter_check_hash")
     ctx.floor("C20 typed pairs", pairs, 5)
+    # insert_hash may decline to insert only where check_hash answers "maybe": the early-exit guards
+    # of the two are the same conditions, and check's early answer is true
+    ih, ch = fns.get("carquet_bloom_filter_insert_hash"), fns.get("carquet_bloom_filter_check_hash")
+    if ih is None or ch is None:
+        raise AnalysisBroken("insert_hash/check_hash missing")
+
+    def early(f):
+        out = []
+        for g in f.body.kids():
+            if g.k == "IfStmt":
+                kids = [x for x in g.c if x is not None]
+                rs = [r for r in kids[1].walk() if r.k == "ReturnStmt"]
+                if rs:
+                    out.append((nocast(Canon(f, inline=False)(kids[0])), rs))
+        return out
+    ei, ec = early(ih), early(ch)
+    ctx.ob("R11.symmetry", "hash-early-exits|%s" % BF, P.where(ih.body),
+           "insert_hash skips the insertion exactly under the conditions for which check_hash answers true",
+           [c for c, _ in ei] == [c for c, _ in ec] and
+           all(r.c and r.c[0] is not None and r.c[0].cv == 1 for _, rs in ec for r in rs),
+           "%s / %s" % ([show(c) for c, _ in ei], [show(c) for c, _ in ec]))
 
     # ---- (5) serialisation / merge
     wr = fns["carquet_bloom_filter_write"]
